@@ -3,7 +3,8 @@
    group, a rendezvous head leaves run only after all sibling heads have entered); that rayon
    behaves like this model is runtime behaviour of a dependency and is exercised — not proved —
    by suite S8 on the real pools. *)
-From Shred Require Import Pool.
+From Shred Require Import Pool PoolCells PoolCellsProps.
+From Coq Require Import List.
 
 (* with at least as many workers as the stage has groups the rendezvous program cannot
    deadlock: every reachable non-final state has an enabled step *)
@@ -26,3 +27,28 @@ Print Assumptions C11_model_too_few_workers_can_deadlock.
 
 Example C11_example : pool_can_rendezvous 4 4 = true /\ pool_can_rendezvous 3 4 = false.
 Proof. split; reflexivity. Qed.
+
+(* ---- the part of C11 that is logic, not timing: WHICH pool runs the systems of a batch.  Model PoolCells.v: the
+   shared pool cell of a builder, add_pool, add_batch (the sub-builder takes over the parent's cell, the parent remembers
+   the cells that dispatchers built earlier still hold), build (an empty cell gets a default pool; the remembered cells
+   get the builder's pool).  For EVERY tree of add_pool / add_batch calls, in any order and to any depth: after the
+   outermost build every dispatcher of the tree reads the pool of the outermost one ... *)
+Theorem C11_every_dispatcher_of_the_tree_uses_the_outermost_pool :
+  forall ops, Forall (fun q => opool_eqb q (root_pool (build_root true ops)) = true) (node_pools (build_root true ops)).
+Proof. exact node_pools_uniform. Qed.
+Print Assumptions C11_every_dispatcher_of_the_tree_uses_the_outermost_pool.
+
+(* ... and that pool is the last one attached to the outermost builder, or a default pool if none was *)
+Theorem C11_the_pool_of_the_tree_is_the_attached_one :
+  forall ops,
+  match last_pool ops None with
+  | Some k => root_pool (build_root true ops) = Some (User k)
+  | None => exists d, root_pool (build_root true ops) = Some (Default d)
+  end.
+Proof. exact root_pool_is_the_attached_one. Qed.
+Print Assumptions C11_the_pool_of_the_tree_is_the_attached_one.
+
+(* the behaviour before fix 94c4994 (the parent did not remember the cells): a batch two levels deep kept a private
+   default pool although the outermost builder had the user's pool *)
+Example C11_before_the_fix_refuted : uniform (build_root false ex_deep) = false.
+Proof. exact ex_deep_old_refuted. Qed.
